@@ -46,11 +46,21 @@ def hdlKey (o : HObs) : String :=
 
 /-! ### request parsing -/
 
-inductive GenSpec | absent | fail | zero | for_ (d : Int) | until_ (off : Int) | odd (d : Int)
+inductive GenSpec | absent | fail | zero | for_ (d : Int) | until_ (off zone : Int) | odd (d : Int)
   deriving Repr, BEq
 
 inductive LSpec | T (tag : String) | M | D (allow : Bool) (g : GenSpec)
   deriving Repr, BEq
+
+/-- `<off>` or `<off>z<zone seconds east of UTC>` -/
+def parseOffZone (s : String) : Option (Int × Int) :=
+  match s.splitOn "z" with
+  | [a] => a.toInt?.map (fun o => (o, 0))
+  | [a, b] => do
+    let o ← a.toInt?
+    let z ← b.toInt?
+    if z = 0 then none else pure (o, z)
+  | _ => none
 
 def parseGen (s : String) : Option GenSpec :=
   match s.toList with
@@ -58,7 +68,7 @@ def parseGen (s : String) : Option GenSpec :=
   | ['e'] => some .fail
   | ['z'] => some .zero
   | 'f' :: r => (String.ofList r).toInt?.map .for_
-  | 'u' :: r => (String.ofList r).toInt?.map .until_
+  | 'u' :: r => (parseOffZone (String.ofList r)).map (fun oz => .until_ oz.1 oz.2)
   | 'o' :: r => (String.ofList r).toInt?.map .odd
   | _ => none
 
@@ -83,7 +93,14 @@ def parseVal (s : String) : Option (Option Val) :=
   | ['-'] => some none
   | 'x' :: r => (hexStr? (String.ofList r)).map (fun v => some (.raw v))
   | 'd' :: r => (String.ofList r).toInt?.map (fun n => some (.dur n))
-  | 't' :: r => (String.ofList r).toInt?.map (fun n => some (.time n))
+  | 't' :: r =>
+    match (String.ofList r).splitOn "@" with
+    | [a] => a.toInt?.map (fun n => some (.time n))
+    | [a, z] => do
+      let n ← a.toInt?
+      let z ← z.toInt?
+      if z = 0 then none else pure (some (.timeIn n z))
+    | _ => none
   | _ => none
 
 def valTok : Option Val → String
@@ -91,8 +108,9 @@ def valTok : Option Val → String
   | some (.raw s) => "x" ++ strHex s
   | some (.dur n) => s!"d{n}"
   | some (.time n) => s!"t{n}"
+  | some (.timeIn n z) => s!"t{n}@{z}"
 
-inductive CtxSpec | none | zero | for_ (d : Int) | until_ (off : Int)
+inductive CtxSpec | none | zero | for_ (d : Int) | until_ (off zone : Int)
   deriving Repr, BEq
 
 def parseCtx (s : String) : Option CtxSpec :=
@@ -100,7 +118,7 @@ def parseCtx (s : String) : Option CtxSpec :=
   | ['-'] => some .none
   | ['z'] => some .zero
   | 'f' :: r => (String.ofList r).toInt?.map .for_
-  | 'u' :: r => (String.ofList r).toInt?.map .until_
+  | 'u' :: r => (parseOffZone (String.ofList r)).map (fun oz => .until_ oz.1 oz.2)
   | _ => Option.none
 
 structure MSpec where
@@ -180,7 +198,7 @@ def mkGen (rec : List String) (base : Int) (li : Nat) : GenSpec → Option (Stri
   | .fail => some (fun _ _ => none)
   | .zero => some (fun _ _ => some Delay.zero)
   | .for_ d => some (fun _ m => some (Delay.for (nowOf rec s!"g{li}.{m.id}") d))
-  | .until_ off => some (fun _ m => some (Delay.until (nowOf rec s!"g{li}.{m.id}") (base + off)))
+  | .until_ off zone => some (fun _ m => some (Delay.untilIn (nowOf rec s!"g{li}.{m.id}") (base + off) zone))
   | .odd d => some (fun _ m => if m.id % 2 = 1 then none else some (Delay.for (nowOf rec s!"g{li}.{m.id}") d))
 
 def mkPubStack (rec : List String) (base : Int) : Nat → List LSpec → List PubLayer
@@ -203,7 +221,7 @@ def mkMsg (rec : List String) (base : Int) (id : Nat) (s : MSpec) : Msg :=
     | .none => none
     | .zero => some Delay.zero
     | .for_ d => some (Delay.for (nowOf rec s!"m{id}") d)
-    | .until_ off => some (Delay.until (nowOf rec s!"m{id}") (base + off))
+    | .until_ off zone => some (Delay.untilIn (nowOf rec s!"m{id}") (base + off) zone)
   { id := id, md := md2, ctxDelay := cd }
 
 def mfind : MD → String → Option Val
@@ -458,7 +476,7 @@ def delayLayers : Nat → List LSpec → List (Nat × Bool × GenSpec)
 
 def genOk (g : GenSpec) (id : Nat) : Bool :=
   match g with
-  | .absent => false | .fail => false | .zero => true | .for_ _ => true | .until_ _ => true
+  | .absent => false | .fail => false | .zero => true | .for_ _ => true | .until_ _ _ => true
   | .odd _ => id % 2 = 0
 
 def genPresent (g : GenSpec) : Bool := match g with | .absent => false | _ => true
@@ -472,16 +490,21 @@ def agree (w : Win) (forNs untilSec : Int) : Bool :=
     that the source fixes exactly (For: the duration, Until: the instant) is not there; "agree" = it is, but
     delayed-for and delayed-until do not agree -/
 def stampMatches (kind : CtxSpec) (base : Int) (w : Option Win) (f u : Option Val) : String :=
-  match kind, f, u with
-  | .zero, some (.dur 0), some (.time s) => if s = zeroTimeSec then "" else "source"
-  | .for_ d, some (.dur x), some (.time s) =>
+  -- the INSTANT the stamped delayed-until denotes (its rendering, `Z` or `+hh:mm`, is not the property's business)
+  match kind, f, u.bind Val.instantSec with
+  | .zero, some (.dur 0), some s => if s = zeroTimeSec then "" else "source"
+  | .for_ d, some (.dur x), some s =>
     if x ≠ d then "source" else (match w with | some w => if agree w x s then "" else "agree" | none => "agree")
-  | .until_ off, some (.dur x), some (.time s) =>
-    if s ≠ (base + off) / sec1 then "source" else (match w with | some w => if agree w x s then "" else "agree" | none => "agree")
+  | .until_ off _, some (.dur x), some s =>
+    match w with
+    | some w =>
+      if !agree w x s then "agree"                        -- delayed-for and delayed-until describe different delays
+      else if s ≠ (base + off) / sec1 then "source" else ""
+    | none => "agree"
   | _, _, _ => "source"
 
 def genAsCtx : GenSpec → CtxSpec
-  | .zero => .zero | .for_ d => .for_ d | .until_ o => .until_ o | .odd d => .for_ d | _ => .none
+  | .zero => .zero | .for_ d => .for_ d | .until_ o z => .until_ o z | .odd d => .for_ d | _ => .none
 
 def nonEmpty (v : Option Val) : Bool := match v with | none => false | some (.raw "") => false | some _ => true
 
@@ -769,6 +792,66 @@ def monitorCh (q : ChReq) (obs : String) : String := Id.run do
   else if famTotal ms "sub" ≠ 0 then return "violated:metrics_foreign_series"
   return "ok"
 
+/-! ### overlapping invocations of one Router handler -/
+
+structure RtoReq where
+  ks : Nat
+  rounds : Nat
+  outs : List Outcome
+  pub : String
+  sub : String
+
+def parseRtoReq (f : List String) (rec : List String) : Option RtoReq :=
+  match f with
+  | [ks, rd, os] => do
+    let ks ← ks.toNat?
+    let rd ← rd.toNat?
+    let os ← (splitOr os ",").mapM parseOutcome
+    let p ← (recGet rec "pub").bind hexStr?
+    let s ← (recGet rec "sub").bind hexStr?
+    -- no outputs in these scenarios
+    if os.all (fun o => o == .ok 0 || o == .err || o == .panic) then pure ⟨ks, rd, os, p, s⟩ else none
+  | _ => none
+
+def settleChar : Settle → Char
+  | .ack => 'a' | .nack => 'n' | .none => '-'
+
+/-- the invocations share nothing, so the counts are those of the same invocations one after the other -/
+def modelRto (q : RtoReq) : String :=
+  let all := (List.replicate q.rounds q.outs).flatten
+  let w := routerRun "h" q.pub q.sub 0 q.ks 1 0 all {}
+  let round := String.ofList ((w.settles.take q.outs.length).map settleChar)
+  let keys := w.hobs.map hdlKey ++ w.pw.obs.map pubKey ++ w.sobs.map subKey
+  s!"settle={if round.isEmpty then "-" else round}|inv={w.settles.length}|metrics={countLines keys}|close=ok"
+
+def monitorRto (q : RtoReq) (obs : String) : String := Id.run do
+  -- a Go `fatal error` (e.g. concurrent map writes) in the child process that ran the scenario
+  if obs.startsWith "crashed:" then return "violated:overlapping_invocations_crashed_process"
+  let secs := obs.splitOn "|"
+  let some settleS := section? secs "settle" | return "bad-op"
+  let some invS := section? secs "inv" | return "bad-op"
+  let some metricsS := section? secs "metrics" | return "bad-op"
+  let some closeS := section? secs "close" | return "bad-op"
+  if secs.length ≠ 4 ∨ closeS ≠ "ok" then return "violated:liveness"
+  let some inv := invS.toNat? | return "bad-op"
+  let some ms := parseMetrics metricsS | return "bad-op"
+  let n := q.outs.length
+  let total := q.rounds * n
+  if inv ≠ total then return "violated:handler_invocations"
+  let hOk := q.rounds * (q.outs.filter (· == .ok 0)).length
+  -- every message is settled by ITS invocation's outcome, in every round
+  let want := String.ofList (q.outs.map (fun o => if o == .ok 0 then 'a' else 'n'))
+  if total > 0 ∧ settleS ≠ want then return "violated:settle_by_own_outcome"
+  -- every invocation is observed once, with the label of ITS outcome, however the invocations overlap
+  if metricCount ms "hdl" lblTrue ≠ hOk ∨ metricCount ms "hdl" lblFalse ≠ total - hOk ∨ famTotal ms "hdl" ≠ total then
+    return "violated:metrics_handler_once"
+  if q.ks > 0 then
+    if metricCount ms "sub" lblAcked ≠ hOk ∨ metricCount ms "sub" lblNacked ≠ total - hOk ∨ famTotal ms "sub" ≠ total then
+      return "violated:metrics_subscribe_once"
+  else if famTotal ms "sub" ≠ 0 then return "violated:metrics_foreign_series"
+  if ms.any (fun m => m.1 ≠ "sub" ∧ m.1 ≠ "hdl") then return "violated:metrics_foreign_series"
+  return "ok"
+
 def splitRec (toks : List String) : List String × List String :=
   (toks.takeWhile (· ≠ "@"), (toks.dropWhile (· ≠ "@")).drop 1)
 
@@ -781,6 +864,7 @@ def handle (line : String) : String :=
     | "sub" => match parseSubReq f rec with | some q => modelSub q | none => "bad-op"
     | "rt" => match parseRtReq f rec with | some q => modelRt q | none => "bad-op"
     | "ch" => match parseChReq f rec with | some q => modelCh q | none => "bad-op"
+    | "rto" => match parseRtoReq f rec with | some q => modelRto q | none => "bad-op"
     | _ => "bad-op"
   | "P" :: kind :: rest =>
     let req := rest.takeWhile (· ≠ "##")
@@ -792,6 +876,7 @@ def handle (line : String) : String :=
       | "sub" => match parseSubReq f rec with | some q => monitorSub q obs | none => "bad-op"
       | "rt" => match parseRtReq f rec with | some q => monitorRt q obs | none => "bad-op"
       | "ch" => match parseChReq f rec with | some q => monitorCh q obs | none => "bad-op"
+      | "rto" => match parseRtoReq f rec with | some q => monitorRto q obs | none => "bad-op"
       | _ => "bad-op"
     | _ => "bad-op"
   | _ => "bad-op"
